@@ -111,6 +111,9 @@ def read_tile_bytes(t):
     return data
 
 
+SQLITE_TIMEOUT = 0.3     # seconds a second connection waits for a locked database (real time: sqlite is outside the simulator)
+
+
 def make_cache(b, cache_dir=CACHE_DIR):
     """b: backend description dict"""
     typ = b['type']
@@ -125,16 +128,16 @@ def make_cache(b, cache_dir=CACHE_DIR):
         return cls(cache_dir, file_permissions=b.get('perm'), directory_permissions=b.get('dperm'))
     if typ == 'mbtiles':
         from mapproxy.cache.mbtiles import MBTilesCache
-        return MBTilesCache(cache_dir + '/c.mbtiles')
+        return MBTilesCache(cache_dir + '/c.mbtiles', timeout=SQLITE_TIMEOUT)
     if typ == 'sqlite':
         from mapproxy.cache.mbtiles import MBTilesLevelCache
-        return MBTilesLevelCache(cache_dir + '/sqlite')
+        return MBTilesLevelCache(cache_dir + '/sqlite', timeout=SQLITE_TIMEOUT)
     if typ == 'geopackage':
         from mapproxy.cache.geopackage import GeopackageCache
-        return GeopackageCache(cache_dir + '/c.gpkg', b['grid'], 'tiles')
+        return GeopackageCache(cache_dir + '/c.gpkg', b['grid'], 'tiles', timeout=SQLITE_TIMEOUT)
     if typ == 'geopackage_level':
         from mapproxy.cache.geopackage import GeopackageLevelCache
-        return GeopackageLevelCache(cache_dir + '/gpkg', b['grid'], 'tiles')
+        return GeopackageLevelCache(cache_dir + '/gpkg', b['grid'], 'tiles', timeout=SQLITE_TIMEOUT)
     raise ValueError(typ)
 
 
